@@ -459,6 +459,12 @@ class _History:
     # -- REINFORCE family -----------------------------------------------------------------------
     def _critic_value(self):
         recs = [r for r in self.ctap.records if r["main"]]
+        if not recs:
+            # the stated baseline for this step needs the critic's value; the library did not evaluate the critic
+            # at all (e.g. its warm-up weight is not where the configured schedule puts it)
+            self.violate("baseline_value", f"step {self.step_no}: the baseline of this step is (partly) the critic's "
+                         "value, but the library did not evaluate the critic", "critic_not_evaluated")
+            raise StopRun()
         if len(recs) != 1:
             raise HarnessError(f"expected one critic forward, saw {len(recs)}")
         return recs[0]["out"]
